@@ -112,18 +112,23 @@ fn mismatch(id: &[u8], writable: bool, expect_fl: Fl, expect_magic: u16) -> bool
 
 #[allow(clippy::too_many_arguments)]
 fn c09_try<A: Subject>(run: &Run, bytes: &[u8], p: &PathBuf, cfg: &Cfg, mode: Mode, capo: CapOpt, expect_fl: Fl, expect_magic: u16, what: &str, judge_accept: bool) {
+  c09_try_c::<A>(run, bytes, p, cfg, mode, capo, expect_fl, expect_magic, what, judge_accept, false)
+}
+
+#[allow(clippy::too_many_arguments)]
+fn c09_try_c<A: Subject>(run: &Run, bytes: &[u8], p: &PathBuf, cfg: &Cfg, mode: Mode, capo: CapOpt, expect_fl: Fl, expect_magic: u16, what: &str, judge_accept: bool, create: bool) {
   std::fs::write(p, bytes).unwrap();
   let mut c = *cfg;
   c.fl = expect_fl;
   c.magic = expect_magic;
-  let o = open_opts(&c, capo, false);
+  let o = open_opts(&c, capo, create);
   let r = std::panic::catch_unwind(std::panic::AssertUnwindSafe(|| open::<A>(p, o, mode)));
   run.eval(1);
   run.trans(1);
   let prefix = cfg.data_offset();
   let too_small = bytes.len() < prefix;
   let must_fail = too_small || mismatch(&bytes[cfg.reserved as usize..cfg.reserved as usize + 8], mode.writable(), expect_fl, expect_magic);
-  let case = json!({"engine": "c09", "flavour": A::FLAVOUR, "cfg": cfg, "mode": mode, "cap": capo, "expect_fl": expect_fl, "expect_magic": expect_magic, "what": what, "file_len": bytes.len()});
+  let case = json!({"engine": "c09", "flavour": A::FLAVOUR, "cfg": cfg, "mode": mode, "cap": capo, "create": create, "expect_fl": expect_fl, "expect_magic": expect_magic, "what": what, "file_len": bytes.len()});
   let class_what = what.split(' ').next().unwrap_or("");
   match r {
     Err(_) => viol(run, "C09", &format!("open-panicked:{}:{:?}", class_what, mode), format!("[{} {:?} {:?}] open of file ({}) panicked", A::FLAVOUR, mode, capo, what), case),
@@ -256,6 +261,10 @@ fn c09_files<A: Subject>(run: &Run, cfg: &Cfg, thorough: bool) {
       for capo in [CapOpt::Absent, CapOpt::Same] {
         // a cut inside the data area leaves a cursor beyond the file: not judged for acceptance
         c09_try::<A>(run, &b, &p, cfg, mode, capo, cfg.fl, cfg.magic, &what, false);
+        if mode.writable() {
+          // `create` on a file that exists does not make it a new file
+          c09_try_c::<A>(run, &b, &p, cfg, mode, capo, cfg.fl, cfg.magic, &format!("{} (create flag)", what), false, true);
+        }
       }
     }
   }
@@ -268,15 +277,23 @@ fn c09_files<A: Subject>(run: &Run, cfg: &Cfg, thorough: bool) {
         for capo in [CapOpt::Absent, CapOpt::Same] {
           if len >= r0 + 8 {
             c09_try::<A>(run, &b, &p, cfg, mode, capo, cfg.fl, cfg.magic, &what, false);
+            if mode.writable() {
+              c09_try_c::<A>(run, &b, &p, cfg, mode, capo, cfg.fl, cfg.magic, &format!("{} (create flag)", what), false, true);
+            }
           } else {
             // too short even for the identification bytes: must be refused
-            let must = std::panic::catch_unwind(std::panic::AssertUnwindSafe(|| {
-              std::fs::write(&p, &b).unwrap();
-              open::<A>(&p, open_opts(cfg, capo, false), mode).is_ok()
-            }));
-            run.eval(1);
-            if must.unwrap_or(true) || std::fs::read(&p).unwrap() != b {
-              viol(run, "C09", &format!("short-file:{:?}", mode), format!("[{} {:?} {:?}] file ({}) accepted, panicked or altered", A::FLAVOUR, mode, capo, what), json!({"engine": "c09", "what": what}));
+            for create in [false, true] {
+              if create && !mode.writable() {
+                continue;
+              }
+              let must = std::panic::catch_unwind(std::panic::AssertUnwindSafe(|| {
+                std::fs::write(&p, &b).unwrap();
+                open::<A>(&p, open_opts(cfg, capo, create), mode).is_ok()
+              }));
+              run.eval(1);
+              if must.unwrap_or(true) || std::fs::read(&p).unwrap() != b {
+                viol(run, "C09", &format!("short-file:{:?}{}", mode, if create { ":create" } else { "" }), format!("[{} {:?} {:?} create={}] file ({}) accepted, panicked or altered", A::FLAVOUR, mode, capo, create, what), json!({"engine": "c09", "flavour": A::FLAVOUR, "cfg": cfg, "what": what}));
+              }
             }
           }
         }
